@@ -39,10 +39,10 @@ def run_case(cs, ctx):
     else:
         opts = sp.make_opts(rng, spec)
     text = sp.render(spec, rng=rng, second_side=True, noise=True)
-    path = en.write_file(ctx.workdir, text)
-    argv = ['-f', path, '-na', str(spec['na'])] + sp.opts_to_argv(opts, rng)
     import os as _os0
     relative = rng.random() < 0.1
+    path = en.write_file(ctx.workdir, text, plain=relative)
+    argv = ['-f', path, '-na', str(spec['na'])] + sp.opts_to_argv(opts, rng)
     solve_cwd = [ctx.workdir]
     if relative:
         # the file is named relative to the working directory of construction; before a later call the process
@@ -79,7 +79,8 @@ def run_case(cs, ctx):
     _cwd0 = _os0.getcwd()
     try:
         _os0.chdir(ctx.workdir)
-        s = Solver(list(argv))
+        argv_obj = list(argv)          # the caller's own list object
+        s = Solver(argv_obj)
     except BaseException as e:
         ctx.cnt('unobservable_constructor_failed')
         return
@@ -212,8 +213,15 @@ def run_case(cs, ctx):
         if use_limit:
             _dtmod.datetime = JumpDT
             ctx.cnt('histories_with_time_limit_and_time_jumps')
-        for call in hist:
+        edit_at = rng.randrange(1, len(hist)) if (len(hist) > 1 and rng.random() < 0.15) else None
+        if edit_at is not None:
+            ctx.cnt('histories_in_which_the_caller_edits_its_argument_list')
+        for pos_, call in enumerate(hist):
             ctx.cnt('calls')
+            if pos_ == edit_at:
+                # the caller re-uses the list it passed to the constructor (a template for the next Solver)
+                argv_obj.append('-maxsize')
+                argv_obj[1:3] = ['/nonexistent/other.txt']
             if call in ('file_replaced', 'file_removed'):
                 # the Solver object holds the instance it read when it was constructed
                 import os as _os
@@ -288,6 +296,10 @@ def run_case(cs, ctx):
                     TAP.enabled = False
                 nsolve += 1
                 evs = TAP.events[before:]
+                unc = [e['uncertified'] for e in evs if e.get('uncertified')]
+                if unc:
+                    ctx.finding(en.F('C18', 'backend_certificate', 'solve #%d with keywords %s runs the back end with %s: its status Optimal '
+                                     'does not certify an optimum, so the answer may change from one solve to the next' % (nsolve, sorted(kw), unc[0])), case)
                 if any(e.get('backend_fault') for e in evs):
                     ctx.cnt('excluded_backend_returned_infeasible_point')
                     pending = None
